@@ -333,4 +333,6 @@ def run(ctx, rep):
     c05_blank.run(ctx, rep, rid="R-C15-blank")
     from rules.c05 import rule_linecol
     rule_linecol(ctx, rep, rid="R-C15-linecol")
+    from rules.c05 import rule_tile
+    rule_tile(ctx, rep, rid="R-C15-tile")
     # R-C05-noop (column after a comment) is decided under C05
